@@ -115,7 +115,7 @@ func keyOfAny(k any) string {
 // schedule-determined identity (its registration sequence number), so that
 // it can serve as a canonical map key.
 func Register[T any](p *T) *T {
-	if s := cur; s != nil {
+	if s := curp.Load(); s != nil {
 		s.register(unsafe.Pointer(p))
 	}
 	return p
@@ -149,7 +149,7 @@ func (s *Sim) register(p unsafe.Pointer) {
 
 //go:norace
 func registered(p unsafe.Pointer) (int32, bool) {
-	if cur == nil {
+	if curp.Load() == nil {
 		return 0, false
 	}
 	i := int((uintptr(p)>>4)*0x9E3779B97F4A7C15>>40) & (maxReg - 1)
@@ -223,7 +223,7 @@ func CapturePassthrough(stdout, stderr *bytes.Buffer) {
 }
 
 func (w procWriter) Write(b []byte) (int, error) {
-	s := cur
+	s := curp.Load()
 	if s == nil {
 		captureMu.Lock()
 		defer captureMu.Unlock()
@@ -262,6 +262,6 @@ func Stderr() io.Writer { return procWriter{true} }
 //
 //go:norace
 func ProcOutput(p Proc) (stdout, stderr []byte) {
-	s := cur
+	s := curp.Load()
 	return s.procs[p].stdout, s.procs[p].stderr
 }
